@@ -346,6 +346,20 @@ func c14FactsOf(c *Ctx, sx *symx.Ctx, fn *ssa.Function, fk string) []c14Facts {
 			if !dominatesSuccess(t) || t.failEdge != 0 {
 				continue
 			}
+			// found, any := detector(chain value); if any { reject }: the detector a
+			// helper whose boolean says exactly whether its pattern finds something
+			if ex, ok := t.iff.Cond.(*ssa.Extract); ok {
+				if hc, ok := ex.Tuple.(*ssa.Call); ok && len(hc.Common().Args) == 1 {
+					if h := hc.Common().StaticCallee(); h != nil && c.P.IsRepoFunc(h) && len(h.Blocks) > 0 {
+						if find := c14BoolDetector(h, ex.Index); find != nil {
+							if on, _ := onChain(hc.Common().Args[0]); on {
+								haveMeta = true
+								c14MetaSet(c, fk, find)
+							}
+						}
+					}
+				}
+			}
 			if call, ok := t.iff.Cond.(*ssa.Call); ok {
 				n := ssau.CallName(call)
 				if n == "(*regexp.Regexp).MatchString" || n == "strings.ContainsAny" {
@@ -1444,4 +1458,75 @@ func c14AcceptedKinds(fn *ssa.Function) [][]string {
 		out = append(out, kinds)
 	}
 	return out
+}
+
+// c14BoolDetector: result #ri of h(s) is a boolean that is true exactly when
+// a package-level pattern finds something in s: every return gives the
+// constant false only on the side where len(pattern.FindAllString(s, -1)) is
+// 0 and the constant true only on the other side (or gives the comparison
+// itself). Returns the Find call.
+func c14BoolDetector(h *ssa.Function, ri int) *ssa.Call {
+	if len(h.Params) != 1 || ri >= h.Signature.Results().Len() {
+		return nil
+	}
+	var find *ssa.Call
+	ssau.ForEachInstr(h, false, func(in ssa.Instruction) {
+		call, ok := in.(*ssa.Call)
+		if !ok || !strings.HasPrefix(ssau.CallName(call), "(*regexp.Regexp).FindAll") || len(call.Common().Args) < 2 {
+			return
+		}
+		if call.Common().Args[1] != ssa.Value(h.Params[0]) {
+			return
+		}
+		if u, isLoad := call.Common().Args[0].(*ssa.UnOp); isLoad {
+			if _, isGlobal := u.X.(*ssa.Global); isGlobal {
+				find = call
+			}
+		}
+	})
+	if find == nil {
+		return nil
+	}
+	// the edges on which the matches are known empty / non-empty
+	empty, some := map[[2]int]bool{}, map[[2]int]bool{}
+	for _, iff := range ssau.Ifs(h) {
+		op, x, y, ok := ssau.CondOf(iff.Cond)
+		if !ok {
+			continue
+		}
+		lc, isLen := x.(*ssa.Call)
+		if !isLen || ssau.CallName(lc) != "builtin.len" || lc.Common().Args[0] != ssa.Value(find) {
+			continue
+		}
+		k, isC := ssau.ConstInt(y)
+		if !isC || k != 0 {
+			continue
+		}
+		switch op {
+		case token.EQL, token.LEQ:
+			empty[[2]int{iff.Block().Index, 0}], some[[2]int{iff.Block().Index, 1}] = true, true
+		case token.NEQ, token.GTR:
+			some[[2]int{iff.Block().Index, 0}], empty[[2]int{iff.Block().Index, 1}] = true, true
+		}
+	}
+	if len(empty) == 0 {
+		return nil
+	}
+	for _, ret := range ssau.ReturnsOf(h) {
+		v := ssau.ResultValue(ret, ri)
+		switch {
+		case ssau.IsConstBool(v, false):
+			// reachable only through an "empty" edge: not reachable when those are cut
+			if ssau.ReachableAvoidingEdges(h, ret.Block(), empty) {
+				return nil
+			}
+		case ssau.IsConstBool(v, true):
+			if ssau.ReachableAvoidingEdges(h, ret.Block(), some) {
+				return nil
+			}
+		default:
+			return nil
+		}
+	}
+	return find
 }
